@@ -5,13 +5,17 @@ Open Scope N_scope.
 
 (* trace items: a model op, "all armed timeout watchers fire" (the harness slept past the
    deadline), "the background puller ran until it could admit nothing more" *)
-Inductive top := T (o : op) | TFireAll | TPullAll.
+Inductive top := T (o : op) | TFireAll | TPullAll | TThen (o : op).
+
+Definition pull_all (mx : nat) (s : st) : st :=
+  Nat.iter (length (waiting s)) (fun s => fst (step mx s Pull)) s.
 
 Definition tstep (mx : nat) (s : st) (t : top) : st * out :=
   match t with
   | T o => step mx s o
   | TFireAll => (fold_left (fun s w => fst (step mx s (Fire (snd w)))) (watchers s) s, ONone)
-  | TPullAll => (Nat.iter (length (waiting s)) (fun s => fst (step mx s Pull)) s, ONone)
+  | TPullAll => (pull_all mx s, ONone)
+  | TThen o => let '(s', r) := step mx s o in (pull_all mx s', r)   (* the real puller goroutine ran to quiescence *)
   end.
 
 Definition msg_code (m : msg) : N :=
@@ -24,7 +28,9 @@ Definition out_code (o : out) : N :=
    (qid, isCancelled, len(StateChan)), the waiting queue in order as (qid, len(StateChan)),
    and the number of live timeout-watcher goroutines (None = not measured at this step) *)
 Definition rview := (N * bool * nat)%type.
-Record obs := mkO { o_out : N; o_running : list rview; o_waiting : list (N * nat); o_watch : option nat }.
+Record obs := mkO { o_out : N; o_nrun : nat; o_nwait : nat;
+                    o_lists : option (list rview * list (N * nat));   (* None = only the sizes were recorded *)
+                    o_watch : option nat }.
 
 Fixpoint insert_r (x : rview) (l : list rview) : list rview :=
   match l with
@@ -44,8 +50,11 @@ Definition wview_eqb (a b : N * nat) : bool := (fst a =? fst b) && Nat.eqb (snd 
 
 Definition obs_ok (s : st) (r : out) (o : obs) : bool :=
   (out_code r =? o_out o)
-  && list_eqb rview_eqb (view_running s) (o_running o)
-  && list_eqb wview_eqb (view_waiting s) (o_waiting o)
+  && Nat.eqb (length (running s)) (o_nrun o) && Nat.eqb (length (waiting s)) (o_nwait o)
+  && match o_lists o with
+     | None => true
+     | Some (rl, wl) => list_eqb rview_eqb (view_running s) rl && list_eqb wview_eqb (view_waiting s) wl
+     end
   && match o_watch o with None => true | Some k => Nat.eqb (length (watchers s)) k end.
 
 (* indices (from 0) of the steps after which model and implementation differ *)
@@ -65,6 +74,22 @@ Fixpoint check_cases (cs : list (nat * list (top * obs))) (idx : nat) : list nat
   match cs with
   | [] => []
   | (mx, tr) :: r => (if check_trace mx tr then [] else [idx]) ++ check_cases r (S idx)
+  end.
+
+(* the case files write every number as an N (cheaper to parse than nat literals) *)
+Definition mkON (out nr nw : N) (lists : option (list (N * bool * N) * list (N * N))) (w : option N) : obs :=
+  mkO out (N.to_nat nr) (N.to_nat nw)
+      (match lists with
+       | None => None
+       | Some (rl, wl) => Some (map (fun x => (fst (fst x), snd (fst x), N.to_nat (snd x))) rl,
+                                map (fun x => (fst x, N.to_nat (snd x))) wl)
+       end)
+      (match w with None => None | Some k => Some (N.to_nat k) end).
+
+Fixpoint check_cases_n (cs : list (N * list (top * obs))) (idx : nat) : list nat :=
+  match cs with
+  | [] => []
+  | (mx, tr) :: r => (if check_trace (N.to_nat mx) tr then [] else [idx]) ++ check_cases_n r (S idx)
   end.
 
 (* model self-check on a case (redundant with the theorems): the bounds hold in every state of the trace *)
